@@ -8,7 +8,7 @@ From Coq Require Import ZArith List Bool Lia.
 From Coq.Strings Require Import Byte String.
 From TS Require Import Bytes Codec State Prog Ops Interp StateLemmas InterpLemmas NopSpec StackLemmas
   BytesLemmas TapeLemmas SigSpec ConfigSpec AuthSpec Asm MultisigPure MultisigLink BuilderSpec TapeSteps
-  Builders.
+  Builders TablesCheck.
 Import ListNotations.
 Local Open Scope nat_scope.
 
@@ -51,6 +51,50 @@ Proof.
   unfold multisig_witness, pushes_bytes. induction sigs as [|s t IH]; [reflexivity|].
   cbn [flat_map]. rewrite IH, single_sig_witness_bytes. reflexivity.
 Qed.
+
+(* the same facts with the PUSH1 shape spelled out, one statement per builder pair *)
+Lemma single_sig_bytes (pk sig : bytes) (fl : byte) :
+  Builders.single_sig_lock pk fl = (x03 :: z2b (blen pk) :: pk) ++ [x23; fl] /\
+  Builders.single_sig_witness sig = x03 :: z2b (blen sig) :: sig.
+Proof. split; [exact (single_sig_lock_bytes pk fl)|exact (single_sig_witness_bytes sig)]. Qed.
+
+Lemma single_sig2_bytes (pk sig h : bytes) (fl : byte) :
+  Builders.single_sig_lock2 h fl = [x1d] ++ [x1f; x14] ++ (x03 :: z2b (blen h) :: h) ++ [x22] ++ [x23; fl] /\
+  Builders.single_sig_witness2 sig pk = (x03 :: z2b (blen sig) :: sig) ++ (x03 :: z2b (blen pk) :: pk).
+Proof. split; [exact (single_sig_lock2_bytes h fl)|exact (single_sig_witness2_bytes sig pk)]. Qed.
+
+Lemma multisig_bytes (pks sigs : list bytes) (fl m : byte) :
+  Builders.multisig_lock pks fl m =
+    flat_map (fun v => x03 :: z2b (blen v) :: v) pks ++ [x46; fl; m; z2b (Z.of_nat (List.length pks))] /\
+  multisig_witness sigs = flat_map (fun v => x03 :: z2b (blen v) :: v) sigs.
+Proof. split; [exact (multisig_lock_bytes pks fl m)|exact (multisig_witness_bytes sigs)]. Qed.
+
+(* the two acceptance predicates, spelled out *)
+Lemma sig_accepts_meaning (orc : oracle) (cfg : config) (pk sig : bytes) (allowed : Z) (c : cache) :
+  sig_accepts orc cfg pk sig allowed c <->
+  (flags_permitted (sig_flag sig) allowed = true /\
+   exists m x, msg_of (sig_flag sig) c = Some m /\ List.length m <= c_max_item_size cfg /\
+               orc PVerify [pk; m; firstn 64 sig] = OOk [x] /\ bytes_to_bool x = true).
+Proof. reflexivity. Qed.
+
+Lemma real_chk_meaning (orc : oracle) (c : cache) (s k : bytes) :
+  real_chk orc c s k =
+    match msg_of (sig_flag s) c with
+    | Some m => match orc PVerify [k; m; firstn 64 s] with OOk [x] => bytes_to_bool x | _ => false end
+    | None => false
+    end.
+Proof. reflexivity. Qed.
+
+(* a toy oracle and configuration for the non-vacuity examples of props/C13.v *)
+Definition toy : oracle := fun p _ =>
+  match p with
+  | PVerify => OOk [[x01]]
+  | PShake256 => OOk [repeat x07 20]
+  | _ => OErr OtherError
+  end.
+Definition toy_cfg : config := default_config 1000.
+Definition verdict_of (r : auth_result) : option bool :=
+  match r with AuthVerdict b _ => Some b | _ => None end.
 
 (* ================= generalities ================= *)
 
